@@ -1,21 +1,363 @@
 import PhyVerif.Model.C17
 import PhyVerif.Spec.C17
+import PhyVerif.Spec.C07
+import PhyVerif.Lemmas.C07
 /-! Helper lemmas and full proofs for C17. Statements: `Props/C17.lean`. -/
 namespace PhyVerif.C17.Lemmas
 open PhyVerif PhyVerif.C17
 
-theorem chunksKept_ok (bounds : List Int) (nKept : Nat) (hk : 1 ≤ nKept) (hb : 2 ≤ bounds.length) :
-    keptOK bounds nKept (chunksKept bounds nKept) = true := by
-  sorry
+/-! ### general list facts -/
 
-theorem parity_iff_in_kept (bounds : List Int) (nKept : Nat) (hk : 1 ≤ nKept) (hg : GridOK bounds)
-    (t : Int) :
+/-- two strictly increasing lists with the same members are equal -/
+theorem eq_of_pairwise_lt_of_mem_iff : ∀ (l₁ l₂ : List Nat), l₁.Pairwise (· < ·) → l₂.Pairwise (· < ·) →
+    (∀ v, v ∈ l₁ ↔ v ∈ l₂) → l₁ = l₂
+  | [], [], _, _, _ => rfl
+  | [], b :: l₂, _, _, h => by have := (h b).2 (by simp); simp at this
+  | a :: l₁, [], _, _, h => by have := (h a).1 (by simp); simp at this
+  | a :: l₁, b :: l₂, h₁, h₂, h => by
+    rw [List.pairwise_cons] at h₁ h₂
+    have hab : a = b := by
+      have ha := (h a).1 (by simp)
+      have hb := (h b).2 (by simp)
+      rcases List.mem_cons.mp ha with ha | ha
+      · exact ha
+      · rcases List.mem_cons.mp hb with hb | hb
+        · exact hb.symm
+        · have := h₁.1 b hb; have := h₂.1 a ha; omega
+    subst hab
+    have ht : l₁ = l₂ := by
+      apply eq_of_pairwise_lt_of_mem_iff l₁ l₂ h₁.2 h₂.2
+      intro v
+      constructor
+      · intro hv
+        have hlt := h₁.1 v hv
+        rcases List.mem_cons.mp ((h v).1 (List.mem_cons_of_mem _ hv)) with h' | h'
+        · omega
+        · exact h'
+      · intro hv
+        have hlt := h₂.1 v hv
+        rcases List.mem_cons.mp ((h v).2 (List.mem_cons_of_mem _ hv)) with h' | h'
+        · omega
+        · exact h'
+    rw [ht]
+
+theorem drop_take_two (l : List Int) (i : Nat) (h : i + 1 < l.length) :
+    (l.drop i).take 2 = [l.getD i 0, l.getD (i + 1) 0] := by
+  have h0 : i < l.length := by omega
+  have e1 : l.getD i 0 = l[i] := by simp [List.getD_eq_getElem?_getD, List.getElem?_eq_getElem h0]
+  have e2 : l.getD (i + 1) 0 = l[i + 1] := by
+    simp [List.getD_eq_getElem?_getD, List.getElem?_eq_getElem h]
+  rw [e1, e2, List.drop_eq_getElem_cons h0, List.drop_eq_getElem_cons h]
+  rfl
+
+/-! ### the stride -/
+
+theorem stride_pos (n k : Nat) : 1 ≤ stride n k := by unfold stride; omega
+
+theorem lt_ceil_iff (n s j : Nat) (hs : 1 ≤ s) : j < (n + s - 1) / s ↔ j * s < n := by
+  have h : j + 1 ≤ (n + s - 1) / s ↔ (j + 1) * s ≤ n + s - 1 := Nat.le_div_iff_mul_le (by omega)
+  rw [Nat.succ_mul] at h
+  omega
+
+/-- the multiples of `s` below `n`, in increasing order -/
+theorem range_filter_mod (n s : Nat) (hs : 1 ≤ s) :
+    (List.range n).filter (fun i => i % s == 0) = (List.range ((n + s - 1) / s)).map (· * s) := by
+  apply eq_of_pairwise_lt_of_mem_iff
+  · exact List.Pairwise.filter _ List.pairwise_lt_range
+  · rw [List.pairwise_map]
+    refine List.Pairwise.imp ?_ List.pairwise_lt_range
+    intro a b hab
+    exact Nat.mul_lt_mul_of_lt_of_le hab (Nat.le_refl _) (by omega)
+  · intro v
+    simp only [List.mem_filter, List.mem_range, List.mem_map, beq_iff_eq]
+    constructor
+    · rintro ⟨hv, hm⟩
+      refine ⟨v / s, ?_, ?_⟩
+      · rw [lt_ceil_iff n s _ hs]
+        have := Nat.div_add_mod v s
+        have : v / s * s = v := by rw [Nat.mul_comm]; omega
+        omega
+      · have := Nat.div_add_mod v s
+        rw [Nat.mul_comm]; omega
+    · rintro ⟨j, hj, rfl⟩
+      rw [lt_ceil_iff n s _ hs] at hj
+      exact ⟨hj, Nat.mul_mod_left _ _⟩
+
+theorem keptStarts_eq (n k : Nat) :
+    keptStarts n k = (List.range n).filter (fun i => i % stride n k == 0) := by
+  unfold keptStarts
+  exact (range_filter_mod n (stride n k) (stride_pos n k)).symm
+
+theorem keptStarts_length_le (n k : Nat) (hk : 1 ≤ k) : (keptStarts n k).length ≤ k := by
+  unfold keptStarts
+  simp only [List.length_map, List.length_range]
+  have hs := stride_pos n k
+  generalize hsd : stride n k = s at hs
+  have hkn : n ≤ k * s := by
+    have h1 : (n + k - 1) / k ≤ s := by rw [← hsd]; unfold stride; omega
+    have h2 := Nat.div_add_mod (n + k - 1) k
+    have h3 := Nat.mod_lt (n + k - 1) (by omega : k > 0)
+    have h4 : k * ((n + k - 1) / k) ≤ k * s := Nat.mul_le_mul_left k h1
+    omega
+  have : (n + s - 1) / s < k + 1 := by
+    rw [Nat.div_lt_iff_lt_mul (by omega), Nat.succ_mul]
+    omega
+  omega
+
+/-- the flattened kept bounds are the kept intervals of the statement -/
+theorem chunksKept_eq (bounds : List Int) (nKept : Nat) :
+    chunksKept bounds nKept = (keptIntervals bounds nKept).flatMap (fun iv => [iv.1, iv.2]) := by
+  unfold chunksKept keptIntervals
+  rw [keptStarts_eq, List.flatMap_map]
+  apply C07.Lemmas.flatMap_congr'
+  intro i hi
+  rw [List.mem_filter, List.mem_range] at hi
+  exact drop_take_two bounds i (by omega)
+
+theorem keptIntervals_length (bounds : List Int) (nKept : Nat) :
+    (keptIntervals bounds nKept).length = (keptStarts (bounds.length - 1) nKept).length := by
+  unfold keptIntervals
+  rw [keptStarts_eq, List.length_map]
+
+theorem chunksKept_ok (bounds : List Int) (nKept : Nat) (hk : 1 ≤ nKept) (_hb : 2 ≤ bounds.length) :
+    keptOK bounds nKept (chunksKept bounds nKept) = true := by
+  unfold keptOK
+  rw [Bool.and_eq_true, beq_iff_eq, decide_eq_true_eq]
+  exact ⟨chunksKept_eq bounds nKept,
+    by rw [keptIntervals_length]; exact keptStarts_length_le _ _ hk⟩
+
+/-! ### parity of `searchsorted` = membership of a kept interval -/
+
+theorem parity_flat (t : Int) : ∀ (ivs : List (Int × Int)), (∀ p ∈ ivs, p.1 < p.2) →
+    ivs.Pairwise (fun p q => p.2 ≤ q.1) →
+    ((ivs.flatMap fun iv => [iv.1, iv.2]).countP (· ≤ t) % 2 == 1) =
+      ivs.any (fun iv => decide (iv.1 ≤ t) && decide (t < iv.2))
+  | [], _, _ => by simp
+  | (a, b) :: ivs, h1, h2 => by
+    rw [List.pairwise_cons] at h2
+    have ih := parity_flat t ivs (fun p hp => h1 p (List.mem_cons_of_mem _ hp)) h2.2
+    have hab : a < b := h1 (a, b) (by simp)
+    rw [List.flatMap_cons, List.countP_append, List.any_cons]
+    generalize (ivs.flatMap fun iv => [iv.1, iv.2]).countP (· ≤ t) = c at ih ⊢
+    simp only [List.countP_cons, List.countP_nil, decide_eq_true_eq]
+    by_cases hat : a ≤ t
+    · by_cases hbt : b ≤ t
+      · have : ¬ t < b := by omega
+        simp only [hat, hbt, this, if_true, decide_true, decide_false, Bool.and_false, Bool.false_or]
+        rw [← ih]
+        have : (0 + 1 + 1 + c) % 2 = c % 2 := by omega
+        rw [this]
+      · have hr : ivs.any (fun iv => decide (iv.1 ≤ t) && decide (t < iv.2)) = false := by
+          rw [List.any_eq_false]
+          intro p hp
+          have := h2.1 p hp
+          have : ¬ p.1 ≤ t := by simp only at this; omega
+          simp [this]
+        have : t < b := by omega
+        rw [hr] at ih
+        simp only [hat, hbt, this, if_true, if_false, decide_true, Bool.and_true, Bool.true_or]
+        have hc : c % 2 = 0 := by
+          have := Nat.mod_two_eq_zero_or_one c
+          rcases this with h | h
+          · exact h
+          · rw [h] at ih; simp at ih
+        have : (0 + 1 + 0 + c) % 2 = 1 := by omega
+        rw [this]; rfl
+    · have hbt : ¬ b ≤ t := by omega
+      simp only [hat, hbt, if_false, decide_false, Bool.false_and, Bool.false_or]
+      rw [← ih]
+      have : (0 + 0 + 0 + c) % 2 = c % 2 := by omega
+      rw [this]
+
+theorem getD_lt_of_pairwise (l : List Int) (h : l.Pairwise (· < ·)) (i j : Nat) (hij : i < j)
+    (hj : j < l.length) : l.getD i 0 < l.getD j 0 := by
+  have := List.pairwise_iff_getElem.mp h i j (by omega) hj hij
+  simpa [List.getD_eq_getElem?_getD, List.getElem?_eq_getElem hj,
+    List.getElem?_eq_getElem (by omega : i < l.length)] using this
+
+theorem getD_le_of_pairwise (l : List Int) (h : l.Pairwise (· < ·)) (i j : Nat) (hij : i ≤ j)
+    (hj : j < l.length) : l.getD i 0 ≤ l.getD j 0 := by
+  rcases Nat.lt_or_eq_of_le hij with h' | h'
+  · exact Int.le_of_lt (getD_lt_of_pairwise l h i j h' hj)
+  · subst h'; exact Int.le_refl _
+
+theorem parity_iff_in_kept' (bounds : List Int) (nKept : Nat) (hg : GridOK bounds) (t : Int) :
     timeInChunks (chunksKept bounds nKept) t = inKept bounds nKept t := by
-  sorry
+  unfold timeInChunks inKept Np.ssRight
+  rw [chunksKept_eq]
+  apply parity_flat
+  · intro p hp
+    unfold keptIntervals at hp
+    simp only [List.mem_map, List.mem_filter, List.mem_range] at hp
+    obtain ⟨i, ⟨hi, _⟩, rfl⟩ := hp
+    exact getD_lt_of_pairwise bounds hg.2 i (i + 1) (by omega) (by omega)
+  · unfold keptIntervals
+    rw [List.pairwise_map]
+    have hp : ((List.range (bounds.length - 1)).filter
+        fun i => i % stride (bounds.length - 1) nKept == 0).Pairwise (· < ·) :=
+      List.Pairwise.filter _ List.pairwise_lt_range
+    refine List.Pairwise.imp_of_mem ?_ hp
+    intro i j hi hj hij
+    rw [List.mem_filter, List.mem_range] at hi hj
+    exact getD_le_of_pairwise bounds hg.2 (i + 1) j (by omega) (by omega)
+
+theorem parity_iff_in_kept (bounds : List Int) (nKept : Nat) (_hk : 1 ≤ nKept) (hg : GridOK bounds)
+    (t : Int) :
+    timeInChunks (chunksKept bounds nKept) t = inKept bounds nKept t :=
+  parity_iff_in_kept' bounds nKept hg t
+
+/-! ### the selection -/
+
+theorem eligible_eq (x : Inp) (hg : GridOK x.bounds) (c : Nat) : eligible x c = eligibleSpec x c := by
+  unfold eligible eligibleSpec spikesOf intersectSorted
+  cases hs : x.subsetChunks <;> cases hss : x.subset <;>
+    simp only [List.filter_filter, parity_iff_in_kept' _ _ hg] <;>
+    simp only [if_true, if_false, Bool.false_eq_true, List.filter_filter, Bool.not_false, Bool.not_true,
+      Bool.true_or, Bool.false_or, Bool.and_true] <;>
+    (try (apply List.filter_congr; intro i _;
+          cases (inKept x.bounds x.nKept (x.times.getD i 0)) <;> cases (x.clusters.getD i 0 == c) <;>
+          simp))
+
+theorem nodup_of_pairwise_lt (l : List Nat) (h : l.Pairwise (· < ·)) : l.Nodup :=
+  List.Pairwise.imp (fun h => Nat.ne_of_lt h) h
+
+theorem strictIncN_of_pairwise : ∀ (l : List Nat), l.Pairwise (· < ·) → strictIncN l = true
+  | [], _ => rfl
+  | [_], _ => rfl
+  | a :: b :: t, h => by
+    rw [List.pairwise_cons] at h
+    unfold strictIncN
+    rw [Bool.and_eq_true, decide_eq_true_eq]
+    exact ⟨h.1 b (by simp), strictIncN_of_pairwise (b :: t) h.2⟩
+
+theorem eligibleSpec_pairwise (x : Inp) (c : Nat) : (eligibleSpec x c).Pairwise (· < ·) :=
+  List.Pairwise.filter _ List.pairwise_lt_range
+
+theorem mem_eligibleSpec (x : Inp) (c v : Nat) (h : v ∈ eligibleSpec x c) :
+    v < x.clusters.length ∧ x.clusters.getD v 0 = c := by
+  unfold eligibleSpec at h
+  rw [List.mem_filter, List.mem_range, Bool.and_eq_true, Bool.and_eq_true, beq_iff_eq] at h
+  exact ⟨h.1, h.2.1.1⟩
+
+theorem selectCluster_cases (choose : List Nat → Nat → List Nat) (x : Inp) (hg : GridOK x.bounds)
+    (c : Nat) :
+    (selectCluster choose x c = eligibleSpec x c) ∨
+    (∃ n : Int, x.count = some n ∧ n > 0 ∧ ((eligibleSpec x c).length : Int) > n ∧
+      selectCluster choose x c = choose (eligibleSpec x c) n.toNat) := by
+  unfold selectCluster
+  simp only [eligible_eq x hg]
+  cases hc : x.count with
+  | none => exact Or.inl rfl
+  | some n =>
+    by_cases h : n > 0 ∧ ((eligibleSpec x c).length : Int) > n
+    · right
+      exact ⟨n, rfl, h.1, h.2, by simp only [if_pos h]⟩
+    · left
+      simp only [if_neg h]
+
+theorem mem_selectCluster (choose : List Nat → Nat → List Nat) (hch : ChooseOK choose) (x : Inp)
+    (hg : GridOK x.bounds) (c v : Nat) (h : v ∈ selectCluster choose x c) : v ∈ eligibleSpec x c := by
+  rcases selectCluster_cases choose x hg c with he | ⟨n, _, hn0, hlen, he⟩
+  · rw [he] at h; exact h
+  · rw [he] at h
+    exact (hch (eligibleSpec x c) n.toNat (nodup_of_pairwise_lt _ (eligibleSpec_pairwise x c))
+      (by omega)).2.2 v h
+
+theorem selectWith_spec (choose : List Nat → Nat → List Nat) (x : Inp) (hne : x.req.isEmpty = false) :
+    (selectWith choose x).Pairwise (· < ·) ∧
+      ∀ v, v ∈ selectWith choose x ↔ ∃ c ∈ x.req, v ∈ selectCluster choose x c := by
+  unfold selectWith
+  rw [hne]
+  simp only [Bool.false_eq_true, if_false]
+  have h := C07.Lemmas.unique_spec (((x.req.eraseDups).flatMap (selectCluster choose x)).map Int.ofNat)
+  refine ⟨h.1, fun v => ?_⟩
+  rw [h.2 v]
+  simp only [List.mem_map, List.mem_flatMap, List.mem_eraseDups]
+  constructor
+  · rintro ⟨w, hw, hwv⟩
+    have : w = v := Int.ofNat.inj hwv
+    subst this
+    exact hw
+  · intro hw
+    exact ⟨v, hw, rfl⟩
+
+theorem cluster_clause (choose : List Nat → Nat → List Nat) (hch : ChooseOK choose) (x : Inp)
+    (hg : GridOK x.bounds) (c : Nat) (got : List Nat) (hgpw : got.Pairwise (· < ·))
+    (hg' : ∀ v, v ∈ got ↔ v ∈ selectCluster choose x c) :
+    (match x.count with
+      | some n =>
+        if n > 0 ∧ ((eligibleSpec x c).length : Int) > n then
+          decide ((got.length : Int) = n) && got.all ((eligibleSpec x c).contains ·)
+        else got == eligibleSpec x c
+      | none => got == eligibleSpec x c) = true := by
+  have hall : ∀ (_ : selectCluster choose x c = eligibleSpec x c), (got == eligibleSpec x c) = true := by
+    intro he
+    rw [beq_iff_eq]
+    apply eq_of_pairwise_lt_of_mem_iff _ _ hgpw (eligibleSpec_pairwise x c)
+    intro v; rw [hg' v, he]
+  have hsel : selectCluster choose x c = (match x.count with
+      | some n => if n > 0 ∧ ((eligibleSpec x c).length : Int) > n then
+          choose (eligibleSpec x c) n.toNat else eligibleSpec x c
+      | none => eligibleSpec x c) := by
+    unfold selectCluster
+    simp only [eligible_eq x hg]
+    cases x.count <;> rfl
+  cases hc : x.count with
+  | none =>
+    rw [hc] at hsel
+    exact hall hsel
+  | some n =>
+    rw [hc] at hsel
+    simp only at hsel ⊢
+    by_cases h : n > 0 ∧ ((eligibleSpec x c).length : Int) > n
+    · rw [if_pos h] at hsel ⊢
+      obtain ⟨hnd, hlen, hsub⟩ := hch (eligibleSpec x c) n.toNat
+        (nodup_of_pairwise_lt _ (eligibleSpec_pairwise x c)) (by omega)
+      rw [← hsel] at hnd hlen hsub
+      have hperm : got.Perm (selectCluster choose x c) :=
+        (List.perm_ext_iff_of_nodup (nodup_of_pairwise_lt _ hgpw) hnd).mpr hg'
+      rw [Bool.and_eq_true, decide_eq_true_eq, List.all_eq_true]
+      refine ⟨by rw [hperm.length_eq, hlen]; omega, fun v hv => ?_⟩
+      exact List.contains_iff_mem.mpr (hsub v ((hg' v).1 hv))
+    · rw [if_neg h] at hsel ⊢
+      exact hall hsel
 
 theorem selection_ok (choose : List Nat → Nat → List Nat) (hch : ChooseOK choose) (x : Inp)
-    (hk : 1 ≤ x.nKept) (hg : GridOK x.bounds) :
+    (_hk : 1 ≤ x.nKept) (hg : GridOK x.bounds) :
     SpecOK x (selectWith choose x) = true := by
-  sorry
+  cases hne : x.req.isEmpty with
+  | true =>
+    have hr : x.req = [] := List.isEmpty_iff.mp hne
+    unfold SpecOK selectWith
+    rw [hne, hr]
+    rfl
+  | false =>
+    obtain ⟨hpw, hmem⟩ := selectWith_spec choose x hne
+    generalize selectWith choose x = out at hpw hmem
+    -- members of the output restricted to cluster `c`
+    have hgot : ∀ c ∈ x.req, ∀ v,
+        v ∈ out.filter (fun i => x.clusters.getD i 0 == c) ↔ v ∈ selectCluster choose x c := by
+      intro c hc v
+      rw [List.mem_filter, beq_iff_eq, hmem]
+      constructor
+      · rintro ⟨⟨c', _, hv⟩, hvc⟩
+        have := (mem_eligibleSpec x c' v (mem_selectCluster choose hch x hg c' v hv)).2
+        have : c' = c := by omega
+        subst this
+        exact hv
+      · intro hv
+        exact ⟨⟨c, hc, hv⟩, (mem_eligibleSpec x c v (mem_selectCluster choose hch x hg c v hv)).2⟩
+    unfold SpecOK
+    rw [Bool.and_eq_true, Bool.and_eq_true]
+    refine ⟨⟨strictIncN_of_pairwise out hpw, ?_⟩, ?_⟩
+    · rw [List.all_eq_true]
+      intro v hv
+      obtain ⟨c, hc, hvc⟩ := (hmem v).1 hv
+      have := mem_eligibleSpec x c v (mem_selectCluster choose hch x hg c v hvc)
+      rw [Bool.and_eq_true, decide_eq_true_eq, this.2]
+      exact ⟨this.1, List.contains_iff_mem.mpr hc⟩
+    · rw [List.all_eq_true]
+      intro c hc
+      exact cluster_clause choose hch x hg c _ (List.Pairwise.filter _ hpw) (hgot c hc)
 
 end PhyVerif.C17.Lemmas
